@@ -23,7 +23,19 @@ Pull == /\ round <= Rounds
              /\ IF turn = {o} THEN turn' = outs /\ round' = round + 1
                               ELSE turn' = turn \ {o} /\ round' = round
         /\ UNCHANGED outs
-Next == Pull
+\* between rounds (every live output has pulled, the backlog is empty) outputs may be dropped or attached;
+\* the remaining / new set keeps pulling in step
+DropAt == /\ round <= Rounds /\ turn = outs /\ Cardinality(outs) > 1
+          /\ \E o \in outs :
+               /\ n' = NDrop(n, o) /\ outs' = outs \ {o} /\ turn' = outs \ {o}
+               /\ hist' = Append(hist, [ev |-> "drop", a |-> [key |-> o]])
+          /\ UNCHANGED round
+NextKeyOf == 1 + Cardinality({i \in 1..Len(hist) : hist[i].ev = "send"}) - 1
+AttachAt == /\ round <= Rounds /\ round > 1 /\ turn = outs /\ Cardinality(outs) < MaxOuts /\ NextKeyOf < MaxOuts + 1
+            /\ n' = NSend(n, NextKeyOf) /\ outs' = outs \cup {NextKeyOf} /\ turn' = outs \cup {NextKeyOf}
+            /\ hist' = Append(hist, [ev |-> "send", a |-> [key |-> NextKeyOf]])
+            /\ UNCHANGED round
+Next == Pull \/ DropAt \/ AttachAt
 Spec == Init /\ [][Next]_vars
 
 BacklogAtMostOne == Len(n.buffer) <= 1
